@@ -12,7 +12,7 @@ MODELLED = [
 ]
 
 
-def run(pid, mode, tier, seed, replay, prop_module, corr, extra_trusted=(), assume=(), coqchk=None, timeout=3000):
+def run(pid, mode, tier, seed, replay, prop_module, corr, extra_trusted=(), assume=(), coqchk=None, timeout=3000, post=None):
     def build(work):
         exe, schema = codec.build_driver(work)
         return exe, dict(VERIF_SCHEMA=schema, VERIF_MODE=mode)
@@ -28,4 +28,5 @@ def run(pid, mode, tier, seed, replay, prop_module, corr, extra_trusted=(), assu
         assume=list(assume),
         coqchk_modules=coqchk or ["GR." + m for m in ([prop_module] if isinstance(prop_module, str) else prop_module)],
         driver_timeout=timeout,
+        post=post,
     )
